@@ -2227,6 +2227,12 @@ def validate_meta(
                 manager.log(f"Metadata abandoned for {id}: file {path} has different hash")
                 return None
         else:
+            if path != meta.path:
+                # The cached error messages (replayed for fresh modules) and the cached tree
+                # mention the old path, so a moved file cannot reuse its cache entry even if
+                # the contents are identical.
+                manager.log(f"Metadata abandoned for {id}: file moved from {meta.path} to {path}")
+                return None
             if manager.stats_enabled:
                 t0 = time.time()
             # Optimization: update mtime and path (otherwise, this mismatch will reappear).
